@@ -32,7 +32,7 @@ import ast
 from hpstatic.interp import Interp, expr_term
 from hpstatic.loader import AnalysisError
 from hpstatic.poly import Canon
-from hpstatic.terms import (sym, intern, show, subterms, calls_in, NONE, num, kw,
+from hpstatic.terms import (sym, intern, show, subterms, calls_in, NONE, num, kw, atoms_of,
                             is_num)
 from hpstatic.xrnorm import atom_rewrite
 from .c05 import subst
@@ -79,6 +79,7 @@ def run(check, prog):
     bh488(check, prog, canon)
     yang(check, prog, canon)
     tolerance_slots(check, prog)
+    cluster_handoff(check, prog)
     # "at every detector point and polarization": the lens theories place the
     # Mie series relative to the polarisation direction (rule shared with C05)
     from . import c05
@@ -584,6 +585,28 @@ def yang(check, prog, canon):
         check.bad('H3-yang-recursion', 'scatcoeffs_multi',
                   'cannot identify m_l x_l in the layer loop', loc)
         return
+    # ... and they are the caller's arrays themselves, layer for layer: only a
+    # conversion of the element type may sit in between (dropping, merging or
+    # re-ordering layers changes which sphere is computed)
+    def converted_only(t, p):
+        while t != p:
+            if t[0] == 'call' and t[1] in ('numpy.array', 'numpy.asarray',
+                                           'numpy.atleast_1d',
+                                           'holopy.core.utils.ensure_array') and \
+                    len(t[2]) == 1 and set(dict(t[3])) <= {'dtype'}:
+                t = t[2][0]
+            elif t[0] == 'call' and isinstance(t[1], tuple) and t[1][0] == 'attr' and \
+                    t[1][2] == 'astype' and len(t[2]) == 1:
+                t = t[1][1]
+            else:
+                return False
+        return True
+    check.require(converted_only(ma, pm) and converted_only(xa, px_), 'H3-yang-recursion',
+                  'scatcoeffs_multi layers',
+                  'the recursion runs over the given index and size-parameter arrays, '
+                  'every layer, in the given order', loc,
+                  fail_detail='the recursion uses m = %s, x = %s' % (
+                      show(ma)[:100], show(xa)[:100]))
     Ha, Hb = intern(('phi', nA, lay[2])), intern(('phi', nB, lay[2]))
     env = {'m': ma, 'x': xa, 'l': lay, 'Ha': Ha, 'Hb': Hb, 'nstop': None}
     ld = [c for c in subterms(lp['vars'][nA][1]) if c[0] == 'call' and
@@ -804,3 +827,76 @@ def tolerance_slots(check, prog):
                               bad[0][1] if bad else '', bad[0][0] if bad else 0,
                               counts[major], major))
     check.floor('f2py call sites carrying defaulted tolerances', nsite, 5)
+
+
+# ----------------------------------------------------------------------
+def cluster_handoff(check, prog):
+    """H6: the multi-sphere solver receives, per sphere, the same dimensionless
+    quantities the single-sphere series is evaluated at: size parameter k r, and the
+    real and imaginary part of the *relative* index n / n_medium -- in the slots
+    the Fortran header reads them from (SNI, SKI, XI of AMNCALC)."""
+    import os
+    from hpstatic.fortran import f2py_signatures
+    q = TH + 'multisphere.Multisphere._scsmfo_setup'
+    fd = prog.func(q)
+    loc = prog.loc(q, fd)
+    sig = f2py_signatures(os.path.join(prog.root, 'holopy/scattering/theory/mie_f/'
+                                                  'scsmfo_min.for')).get('AMNCALC')
+    if not sig:
+        check.error('AMNCALC not found in scsmfo_min.for')
+        return
+    it = Interp(prog, max_depth=2,
+                opaque=['holopy.scattering.scatterer.spherecluster.Spheres.__init__'])
+    sc, k, med = [sym(a.arg) for a in fd.args.args[1:4]]
+    it.types[sc] = prog.find_class('Spheres')
+    it.analyze(q)
+    calls = [c for c in it.calls if c['name'].endswith('amncalc')]
+    if len(calls) != 1:
+        check.bad('H6-cluster-handoff', 'Multisphere._scsmfo_setup',
+                  'no single call of the compiled cluster solver', loc)
+        return
+    slots = dict(zip(sig, calls[0]['args']))
+    slots.update({kk.upper(): v for kk, v in calls[0]['kwargs']})
+    members = intern(('attr', sc, 'scatterers'))
+    c0 = Canon()
+
+    def quantity(t):
+        """(part, attribute, scale) of a per-sphere array expression, or None"""
+        if t[0] == 'call' and t[1] in ('numpy.array', 'numpy.asarray') and len(t[2]) == 1:
+            return quantity(t[2][0])
+        if t[0] == 'call' and t[1] == 'list' and len(t[2]) == 1:
+            return quantity(t[2][0])
+        if t[0] == 'comp' and len(t[3]) == 1 and t[3][0][1] == members and not t[3][0][2]:
+            return quantity(t[2])
+        if t[0] == 'attr' and t[2] in ('real', 'imag'):
+            r = quantity(t[1])
+            if r is None or r[0] != 'full':
+                return None
+            return ('re' if t[2] == 'real' else 'im', r[1], r[2])
+        if t[0] == 'bin' and t[1] in ('/', '*'):
+            for a, b in ((t[2], t[3]), (t[3], t[2])):
+                if atoms_of(b) <= {k, med} and not any(
+                        x[0] in ('attr', 'call', 'elem') for x in subterms(b)):
+                    if t[1] == '/' and b is not t[3]:
+                        continue
+                    r = quantity(a)
+                    if r is None:
+                        return None
+                    return (r[0], r[1], intern(('bin', t[1], r[2], b)))
+            return None
+        if t[0] == 'attr' and t[1][0] == 'elem' and t[1][1] == members:
+            return ('full', t[2], num(1))
+        return None
+    want = {'SNI': ('re', 'n', intern(('bin', '/', num(1), med)), 'Re(n / n_medium)'),
+            'SKI': ('im', 'n', intern(('bin', '/', num(1), med)), 'Im(n / n_medium)'),
+            'XI': ('full', 'r', k, 'k r')}
+    for slot, (part, attr, scale, text) in want.items():
+        got = quantity(slots.get(slot, NONE))
+        ok = got is not None and got[0] == part and got[1] == attr and \
+            c0.equal(got[2], scale)
+        check.require(ok, 'H6-cluster-handoff', 'amncalc slot %s' % slot,
+                      'each sphere\'s %s' % text, loc,
+                      fail_detail='slot %s receives %s%s' % (
+                          slot, show(slots.get(slot, NONE))[:120],
+                          '' if got is None else ' = %s-part of %s * %s' % (
+                              got[0], got[1], c0.show(got[2]))))
